@@ -35,6 +35,7 @@ from exactly_lib.impls.types.string_source.contents import (contents_of_str, con
                                                             contents_via_write_to, contents_with_cached_path, frozen)
 from exactly_lib.impls.types.string_source.contents.contents_via_write_to import Writer
 from exactly_lib.util.file_utils import spooled_file
+from exactly_lib.impls.types.string_transformer.impl.filter import string_sources as filter_sources
 from exactly_lib.util.file_utils.dir_file_space import DirFileSpace
 
 M = Module('C14')
@@ -239,6 +240,8 @@ def txt_of(c):
         return c._transformation.F(txt_of(c._transformed))
     if isinstance(c, concat_mod._ConcatStringSourceContents):
         return join_of(part_txts(c._parts))
+    if isinstance(c, filter_sources.TransformedContentsViaAsLinesBase):
+        return c._transform_lines.F(c._source.txt)
     raise ValueError('txt_of: unexpected class %r' % (type(c),))
 
 
@@ -424,6 +427,34 @@ M.contract(P_CWCP + ':ContentsWithCachedPathFromAsLinesBase.write_to',
            ensures={'appends txt': lambda self, output, old: written(output) == old + txt_of(self)},
            raises_only=())
 
+# --- filter/string_sources.TransformedContentsViaAsLinesBase (base of the line-number filters): the abstract
+# `_transform_lines` is a lines transformation (LinesFnI; for `filter` proved in C13)
+class _ViaAsLines(filter_sources.TransformedContentsViaAsLinesBase):
+    """a concrete subclass for the proof: the abstract `_transform_lines` is the instance attribute of that name"""
+    may_depend_on_external_resources = True
+
+    def _transform_lines(self, lines):
+        raise NotImplementedError('abstract in the proof')
+
+
+VIA_AS_LINES = Inst(_ViaAsLines, _invariant=cached_path_ok,
+                    _source=SS, _file_name=Opt(Str), _as_file_path=Opt(Iface(PathI)), _transform_lines=Iface(LinesFnI))
+_P_VAL = 'exactly_lib.impls.types.string_transformer.impl.filter.string_sources:TransformedContentsViaAsLinesBase'
+
+M.contract(_P_VAL + '.as_lines', params=dict(self=VIA_AS_LINES), inline=True,
+           ensures={'lines == split_nl(txt)': lambda self, yielded: is_split_nl(ctx_lines(yielded), txt_of(self))},
+           raises_only=())
+M.contract(_P_VAL + '.as_str', params=dict(self=VIA_AS_LINES), inline=True,
+           ensures={'as_str == txt': lambda self, result: result == txt_of(self)}, raises_only=())
+M.contract(_P_VAL + '.write_to', params=dict(self=VIA_AS_LINES, output=Iface(TextOutI)), inline=True,
+           old=lambda output: written(output),
+           ensures={'appends txt': lambda self, output, old: written(output) == old + txt_of(self)},
+           raises_only=())
+M.contract(_P_VAL + '._to_file', params=dict(self=VIA_AS_LINES), inline=True,
+           ensures={'file decodes to txt': lambda self, result: file_text(result) == txt_of(self)},
+           replay=lambda model, rf: replays_c14.source('as_file_of_contents_of_str'),
+           raises_only=())
+
 WITH_CACHED_PATH_FROM_WRITE_TO = Union(CONTENTS_OF_STR, CONTENTS_VIA_WRITE_TO, TRANSFORMED_CONTENTS)
 
 M.contract(P_CWCP + ':ContentsWithCachedPathFromWriteToBase._to_file',
@@ -433,7 +464,7 @@ M.contract(P_CWCP + ':ContentsWithCachedPathFromWriteToBase._to_file',
            raises_only=())
 
 M.contract(P_CWCP + ':StringSourceContentsWithCachedPath.as_file',
-           params=dict(self=WITH_CACHED_PATH_FROM_WRITE_TO), inline=True,
+           params=dict(self=Union(CONTENTS_OF_STR, CONTENTS_VIA_WRITE_TO, TRANSFORMED_CONTENTS, VIA_AS_LINES)), inline=True,
            ensures={'file decodes to txt': lambda self, result: file_text(result) == txt_of(self),
                     'the path is cached': lambda self, result: self._as_file_path is result},
            replay=lambda model, rf: replays_c14.source('as_file_of_contents_of_str'),
@@ -451,15 +482,26 @@ def sio_value(sio):
     return sio.getvalue()
 
 
+def sio_position(sio):
+    """position of a StringIO, in characters"""
+    return sio.tell()
+
+
 def is_file_at(fileobj, path):
     import os
     return os.path.samefile(fileobj.name, str(path))
 
 
-def positioned_at_end(fileobj):
-    import os
+def file_position(fileobj):
+    """position of a text file on disk, as the number of characters before it"""
     fileobj.flush()
-    return fileobj.tell() == os.fstat(fileobj.fileno()).st_size
+    cookie = fileobj.tell()          # a flushed UTF-8 file without pending decoder state: the byte offset
+    with open(fileobj.name, 'rb') as f:
+        return len(f.read(cookie).decode(fileobj.encoding, errors='replace'))
+
+
+def positioned_at_end(fileobj):
+    return file_position(fileobj) == len(file_stored(fileobj.name))
 
 
 def _g(interp, args, key):
@@ -467,8 +509,12 @@ def _g(interp, args, key):
 
 
 M.model(sio_value, lambda interp, args, kwargs: wrap(textio._sio_value(interp, _res(interp, args[0]))))
+M.model(sio_position, lambda interp, args, kwargs: wrap(textio.pos_of(interp, _res(interp, args[0]))))
 M.model(is_file_at, lambda interp, args, kwargs: _g(interp, args, 'path') is _res(interp, args[1]))
-M.model(positioned_at_end, lambda interp, args, kwargs: _g(interp, args, 'at_end'))
+M.model(file_position, lambda interp, args, kwargs: wrap(textio.pos_of(interp, _res(interp, args[0]))))
+M.model(positioned_at_end, lambda interp, args, kwargs:
+        wrap(textio.pos_of(interp, _res(interp, args[0]))
+             == z3.Length(textio.stored_of(interp, _g(interp, args, 'path')))))
 
 
 def spooled_written(f):
@@ -478,10 +524,21 @@ def spooled_written(f):
     return file_stored(f._path)
 
 
+def spooled_position(f):
+    """the position, in characters of what has been written"""
+    return sio_position(f._file) if f._path is None else file_position(f._file)
+
+
 def spooled_ok(f):
+    """the state of a file that is being written sequentially: positioned at the end of what was written;
+    in memory only while it fits"""
     if f._path is None:
-        return len(sio_value(f._file)) <= f._max_size
+        return len(sio_value(f._file)) <= f._max_size and sio_position(f._file) == len(sio_value(f._file))
     return is_file_at(f._file, f._path) and positioned_at_end(f._file)
+
+
+def _at_end(f):
+    return spooled_position(f) == len(spooled_written(f))
 
 
 class UnusedPathFnI(Interface):
@@ -489,9 +546,10 @@ class UnusedPathFnI(Interface):
     methods = {'__call__': Method(model=lambda interp, self, args, kwargs: textio.new_unused_path(interp, 'unused'))}
 
 
-def _new_disk_file(interp, name, path, at_end):
+def _new_disk_file(interp, name, path):
+    """a file at `path` opened for update, at an arbitrary position (attribute pos0 of the model)"""
     df = new_opaque(interp, TextFileI, name)
-    df._pv_ghost.update(path=path, mode='x+', at_end=at_end, closed=False)
+    df._pv_ghost.update(path=path, mode='x+', closed=False, cookies={})
     return df
 
 
@@ -503,9 +561,11 @@ def _mk_spooled(state, ok=True):
             f._file = new_opaque(interp, StringIOI, name + '._file')
         else:
             f._path = new_opaque(interp, PathI, name + '._path')
-            f._file = _new_disk_file(interp, name + '._file', f._path, Bool.make(interp, name + '._file.at_end'))
-        if ok:
+            f._file = _new_disk_file(interp, name + '._file', f._path)
+        if ok is True:
             interp.st.assume(interp.truth(interp.call(spooled_ok, [f])))
+        elif ok == 'at-end':
+            interp.st.assume(interp.truth(interp.call(_at_end, [f])))
         return f
 
     return Custom(make)
@@ -514,24 +574,37 @@ def _mk_spooled(state, ok=True):
 SPOOLED_MEM = _mk_spooled('mem')
 SPOOLED_DISK = _mk_spooled('disk')
 SPOOLED = Union(SPOOLED_MEM, SPOOLED_DISK)
-# _check / _rollover are entered when the buffer has just been exceeded
-SPOOLED_MEM_ANY_SIZE = _mk_spooled('mem', ok=False)
+# _check is entered when the buffer may just have been exceeded (by sequential writing: positioned at the end)
+SPOOLED_MEM_ANY_SIZE = _mk_spooled('mem', ok='at-end')
+# _rollover: any size, any position (e.g. `seek(0)` followed by `fileno()`)
+SPOOLED_MEM_ANY = _mk_spooled('mem', ok=False)
+SPOOLED_DISK_ANY = _mk_spooled('disk', ok=False)
 
 
 def _havoc_spooled(interp, f, tag):
     """in-place havoc of a SpooledTextFile: it stays what it is with other contents, or (from the memory
     state) has been rolled over to a new file on disk"""
+    def any_pos(o, contents):
+        k = interp.st.fresh_int(tag + '.pos')
+        interp.st.assume(z3.And(k >= 0, k <= z3.Length(contents)))
+        o._pv_ghost['pos'] = k
+
     if f._path is not None:
-        textio.set_stored(interp, f._path, interp.st.fresh_str(tag + '.stored'))
-        f._file._pv_ghost['at_end'] = Bool.make(interp, tag + '.at_end')
+        t = interp.st.fresh_str(tag + '.stored')
+        textio.set_stored(interp, f._path, t)
+        any_pos(f._file, t)
         return
     if interp.st.choose(2) == 0:
-        f._file._pv_ghost['value'] = interp.st.fresh_str(tag + '.value')
+        t = interp.st.fresh_str(tag + '.value')
+        f._file._pv_ghost['value'] = t
+        any_pos(f._file, t)
     else:
         p = new_opaque(interp, PathI, tag + '._path')
-        textio.set_stored(interp, p, interp.st.fresh_str(tag + '.stored'))
+        t = interp.st.fresh_str(tag + '.stored')
+        textio.set_stored(interp, p, t)
         f._path = p
-        f._file = _new_disk_file(interp, tag + '._file', p, Bool.make(interp, tag + '.at_end'))
+        f._file = _new_disk_file(interp, tag + '._file', p)
+        any_pos(f._file, t)
 
 
 _P_STF = P_SPOOLED + ':SpooledTextFile'
@@ -544,15 +617,18 @@ M.contract(_P_STF + '.__init__',
                     'size': lambda self, mem_buff_size: self._max_size == mem_buff_size},
            raises_only=())
 
-M.contract(_P_STF + '._rollover', params=dict(self=Union(SPOOLED_MEM_ANY_SIZE, SPOOLED_DISK)),
-           old=lambda self: (spooled_written(self), self._path, self._max_size),
+M.contract(_P_STF + '._rollover', params=dict(self=Union(SPOOLED_MEM_ANY, SPOOLED_DISK_ANY)),
+           old=lambda self: (spooled_written(self), self._path, self._max_size, spooled_position(self)),
            modifies={'self': InPlaceBy(_havoc_spooled)},
            ensures={
-               'on disk': lambda self, old: self._path is not None and (old[1] is None or self._path is old[1]),
+               'on disk': lambda self, old: self._path is not None and (old[1] is None or self._path is old[1])
+                                            and is_file_at(self._file, self._path),
                'the disk file holds what was written': lambda self, old: spooled_written(self) == old[0],
-               'positioned at the end of the disk file (further writes append)': lambda self: spooled_ok(self),
+               'positioned at the character the buffer was positioned at (after sequential writing: the end)':
+                   lambda self, old: spooled_position(self) == old[3],
                'size unchanged': lambda self, old: self._max_size == old[2],
-           }, replay=lambda model, rf: replays_c14.source('rollover_position'),
+           },
+           replay=lambda model, rf: replays_c14.source('rollover_position'),
            raises_only=())
 
 M.contract(_P_STF + '._check', params=dict(self=SPOOLED_MEM_ANY_SIZE, file=Any_), inline=True,
@@ -587,13 +663,14 @@ M.contract(_P_STF + '.writelines', params=dict(self=SPOOLED, lines=IterOf(Str)),
 def _writelines_inv(self, file, max_size, lines, old, _i, _n, _xs):
     if self._path is None:
         return self._file is file and sio_value(file) == old[0] + prefix_join(_xs, _i) \
+            and sio_position(file) == len(sio_value(file)) \
             and len(sio_value(file)) <= max_size and max_size == self._max_size and self._max_size == old[2]
     return _i == _n and old[1] and spooled_ok(self) and spooled_written(self) == old[0] + prefix_join(_xs, _n) \
         and len(old[0] + prefix_join(_xs, _n)) > self._max_size and self._max_size == old[2]
 
 
 M.loop(_P_STF + '.writelines', 0, invariant=_writelines_inv,
-       modifies={'file': InPlace(value=Str), 'self': InPlaceBy(_havoc_spooled), '@self._file': None, 'line': 'local'})
+       modifies={'file': InPlace(value=Str, pos=Int), 'self': InPlaceBy(_havoc_spooled), '@self._file': None, 'line': 'local'})
 
 M.contract(_P_STF + '.is_mem_buff', params=dict(self=SPOOLED), inline=True,
            ensures={'tells the state': lambda self, result: result == (self._path is None)}, raises_only=())
@@ -876,3 +953,241 @@ M.loop(_P_CC + '.write_to', 0,
 M.contract(_P_CC + '.tmp_file_space', params=dict(self=CONCAT_CONTENTS), inline=True,
            ensures={'of the first part': lambda self, result: result is self._parts[0].tmp_file_space},
            raises_only=())
+
+
+# ============================================================================== trusted lemmas, platform models: cross-checks
+
+def _all_texts(alphabet, max_len):
+    import itertools
+    for n in range(max_len + 1):
+        for t in itertools.product(alphabet, repeat=n):
+            yield ''.join(t)
+
+
+def _all_divisions(t):
+    """every way of cutting t into non-empty pieces"""
+    if t == '':
+        yield []
+        return
+    n = len(t)
+    for mask in range(1 << (n - 1)):
+        out = []
+        cur = t[0]
+        for i in range(1, n):
+            if mask >> (i - 1) & 1:
+                out.append(cur)
+                cur = ''
+            cur += t[i]
+        out.append(cur)
+        yield out
+
+
+@M.check('lemmas')
+def _lemmas(ctx):
+    """The facts about the mathematical function split_nl that the proofs assume (pyvc.texts.lines_of_text) or
+    that justify the interface abstraction, checked for every text up to length 7 over {a, b, \\n, \\r, \\f}."""
+    exists_ok = unique_ok = empty_ok = count_ok = prefix_ok = True
+    n_texts = n_div = 0
+    bad = None
+    for t in _all_texts('ab\n\r\x0c', 7 if ctx.tier == 'thorough' else 6):
+        n_texts += 1
+        canon = split_nl(t)
+        if not is_split_nl(canon, t):
+            exists_ok, bad = False, t
+        if (len(canon) == 0) != (t == ''):
+            empty_ok, bad = False, t
+        if text_spec.nlines_by_count(t) != len(canon):
+            count_ok, bad = False, t
+        for i in range(len(canon) + 1):
+            if not t.startswith(prefix_join(canon, i)) or len(prefix_join(canon, i)) < i:
+                prefix_ok, bad = False, t
+        if len(t) <= 6:
+            for xs in _all_divisions(t):
+                n_div += 1
+                if is_split_nl(xs, t) and xs != canon:
+                    unique_ok, bad = False, (t, xs)
+    d = {'texts': n_texts, 'divisions': n_div, 'counterexample': repr(bad)}
+    ctx.obligation('lemma: split_nl(t) satisfies is_split_nl (the canonical division exists)', exists_ok, 'enumeration', d)
+    ctx.obligation('lemma: is_split_nl(xs, t) implies xs == split_nl(t) (uniqueness: what a class proves of its '
+                   'lines is what I_SSC gives its consumers)', unique_ok, 'enumeration', d)
+    ctx.obligation('lemma: no lines iff the text is empty', empty_ok, 'enumeration', d)
+    ctx.obligation('lemma: number of lines == count of \\n (+1 if the text does not end in \\n)', count_ok, 'enumeration', d)
+    ctx.obligation('lemma: joined prefixes of the lines are prefixes of the text, i lines have >= i characters',
+                   prefix_ok, 'enumeration', d)
+
+
+def _extra_break(s):
+    """native counterpart of pyvc.textio._extra_break_re"""
+    for i, c in enumerate(s[:-1]):
+        if c in textio.SPLITLINES_EXTRA and not (c == '\r' and s[i + 1] == '\n'):
+            return True
+    return False
+
+
+@M.check('platform-models')
+def _platform(ctx):
+    """The assumed contracts of pyvc/textio.py against CPython on this platform."""
+    import filecmp
+    import io
+    import os
+    import tempfile
+    # (a) str.splitlines
+    boundary = ''.join(chr(c) for c in range(0x110000) if len(('a' + chr(c) + 'b').splitlines(True)) == 2)
+    ctx.obligation('str.splitlines boundary characters are exactly \\n and SPLITLINES_EXTRA (all 0x110000 code points)',
+                   sorted(boundary) == sorted('\n' + textio.SPLITLINES_EXTRA), 'enumeration', {'boundary': repr(boundary)})
+    ok = True
+    bad = None
+    n = 0
+    for s in _all_texts('a\n\r\x0c ', 6):
+        n += 1
+        sl = s.splitlines(keepends=True)
+        differs = sl != split_nl(s)
+        if differs != _extra_break(s) or ''.join(sl) != s or (differs and not len(sl) > len(split_nl(s))):
+            ok, bad = False, s
+    ctx.obligation('model of str.splitlines(keepends=True): same as split_nl unless a boundary other than \\n is '
+                   'followed by a character; then more pieces; pieces concatenate to the text', ok, 'enumeration',
+                   {'texts': n, 'counterexample': repr(bad)})
+    # (b) text files: universal newlines on reading, verbatim on writing
+    d = tempfile.mkdtemp(prefix='c14-platform-')
+    p = os.path.join(d, 'f')
+    ok_read = ok_lines = ok_axioms = ok_write = True
+    n = 0
+    for s in _all_texts('a\n\r', 5):
+        n += 1
+        with open(p, 'w', newline='') as f:
+            f.write(s)
+        with open(p) as f:
+            r = f.read()
+        with open(p) as f:
+            lines = list(f)
+        if r != decoded(s):
+            ok_read, bad = False, s
+        if lines != split_nl(r):
+            ok_lines, bad = False, s
+        if not ((('\r' in s) or r == s) and ('\r' not in r) and len(r) <= len(s)):
+            ok_axioms, bad = False, s
+        with open(p, 'w') as f:
+            f.write(s)
+        if file_stored(p) != s:
+            ok_write, bad = False, s
+    det = {'texts': n, 'counterexample': repr(bad), 'os.linesep': repr(os.linesep)}
+    ctx.obligation('reading a text file (newline=None): read() is the universal-newline decoding', ok_read, 'enumeration', det)
+    ctx.obligation('iterating a text file yields split_nl(decoded text)', ok_lines, 'enumeration', det)
+    ctx.obligation('facts assumed of univ_nl: identity without \\r, no \\r in the result, not longer', ok_axioms,
+                   'enumeration', det)
+    ctx.obligation('writing in text mode stores the text unchanged on this platform', ok_write, 'enumeration', det)
+    # (c) byte length
+    ok = all((len(chr(c).encode('utf-8')) >= 1) and ((len(chr(c).encode('utf-8')) == 1) == (c < 0x80))
+             for c in list(range(0, 0x3000)) + [0xD7FF, 0xE000, 0xFFFF, 0x10000, 0x10FFFF])
+    enc = io.TextIOWrapper(io.BytesIO()).encoding
+    ctx.obligation('utf8_len: a character takes one byte iff it is ASCII (text files are opened with the locale '
+                   'encoding: %s)' % enc, ok and enc.lower().replace('-', '') in ('utf8',), 'enumeration', {'encoding': enc})
+    # (d) StringIO(newline='\n'), (e) filecmp
+    ok = True
+    for s in _all_texts('a\n\r\xe5', 4):
+        sio = io.StringIO(newline='\n')
+        sio.write(s)
+        if sio.getvalue() != s or sio.tell() != len(s):
+            ok = False
+    ctx.obligation("io.StringIO(newline='\\n'): no translation, tell() is the number of characters", ok, 'enumeration')
+    q = os.path.join(d, 'g')
+    ok = True
+    for a in ('', 'a\n', 'a\r\n', 'a\r', '\xe5'):
+        for b in ('', 'a\n', 'a\r\n', 'a\r', '\xe5'):
+            for path, t in ((p, a), (q, b)):
+                with open(path, 'w', newline='') as f:
+                    f.write(t)
+            if filecmp.cmp(p, q, shallow=False) != (a == b):
+                ok = False
+            filecmp.clear_cache()
+    ctx.obligation('filecmp.cmp(a, b, shallow=False) iff the two files hold the same bytes', ok, 'enumeration')
+    import shutil
+    shutil.rmtree(d, ignore_errors=True)
+
+
+M.trust('pyvc/textio.py: assumed contracts of pathlib.Path.open / text files (universal newlines on reading, verbatim '
+        'writing on POSIX, byte-offset positions), io.StringIO(newline="\\n"), os.fstat().st_size, filecmp.cmp(shallow=False), '
+        'str.splitlines(keepends=True); cross-checked against CPython by the check `platform-models` on every run')
+M.trust('pyvc/texts.py: nlines / line_at / lines_prefix are the mathematical function split_nl (its characterisation is '
+        'assumed for the canonical list of a text); lemmas about it bounded-checked by the check `lemmas`')
+M.assume('the environment does not fail: DirFileSpace.new_path / get_unused_path give paths that are not in use, file '
+         'operations raise no OSError, text files use a UTF-8 (multi-byte) encoding')
+M.assume('a text source is constant: a StringSource / Writer gives the same text at every access (I_SSC `txt`, SSI `txt`, '
+         'WriterI `txt`); sources that vary over time (a program run twice) are outside the property -- freeze() exists for them')
+M.assume('a lines transformation (StringTransFun) maps the lines of a text t to the lines of F(t) for a function F on texts '
+         '(LinesFnI): proved for identity here, for `replace` re-splitting in C05, for `filter` in C13; other transformers assumed')
+M.assume('parameter shapes are the states reachable through the constructors (class invariants `cached_path_ok`, '
+         '`spooled_ok`, `_freezing_ok`, `_transformed_source_ok` are established by the __init__ contracts and preserved by '
+         'every method under contract); mem_buff_size >= 1 as the property quantifies')
+
+
+# ------------------------------------------------------------------------------ concat: the lines of the concatenation
+# `_lines_iter` joins the last line of a part that lacks its new-line with the first line of the next
+# non-empty part.  Ghost: P = the texts of the parts, Y = what has been yielded, L = the pending line ('' if
+# none).  Invariant of the loop over the parts: join(Y) + L == P[0] + ... + P[i-1], every yielded line is
+# complete (ends in \n), the pending line contains no \n.
+
+M.contract(P_CONCAT + ':_is_ended_by_new_line', params=dict(s=Str), returns=Bool,
+           ensures={'ends in new-line': lambda s, result: result == s.endswith(NL)}, raises_only=())
+
+
+def _pending(last):
+    return '' if last is None else last
+
+
+def _complete_lines(ys):
+    return forall_range(0, len(ys), lambda j: is_line(ys[j]) and ys[j].endswith(NL))
+
+
+def _pending_ok(last):
+    return last is None or (last != '' and NL not in last)
+
+
+def _inv_parts(self, yielded, last_line_wo_ending_new_line, _i):
+    return join_of(yielded) + _pending(last_line_wo_ending_new_line) == prefix_join(part_txts(self._parts), _i) \
+        and _pending_ok(last_line_wo_ending_new_line) and _complete_lines(yielded)
+
+
+def _inv_first_line(self, yielded, last_line_wo_ending_new_line, _i, _i0):
+    # (the body always breaks: only the first line is taken here)
+    return _i == 0 and _inv_parts(self, yielded, last_line_wo_ending_new_line, _i0)
+
+
+def _inv_other_lines(self, yielded, last_line_wo_ending_new_line, _i, _n, _xs, _i0):
+    return join_of(yielded) + _pending(last_line_wo_ending_new_line) \
+        == prefix_join(part_txts(self._parts), _i0) + prefix_join(_xs, _i) \
+        and (_i == 0 or last_line_wo_ending_new_line is None or _i == _n) \
+        and _pending_ok(last_line_wo_ending_new_line) and _complete_lines(yielded)
+
+
+def _inv_last_other_lines(self, yielded, _i, _n, _xs):
+    return join_of(yielded) == prefix_join(part_txts(self._parts), len(self._parts) - 1) + prefix_join(_xs, _i) \
+        and (_i == _n or len(yielded) == 0 or yielded[len(yielded) - 1].endswith(NL)) \
+        and forall_range(0, len(yielded), lambda j: is_line(yielded[j])) \
+        and forall_range(0, len(yielded) - 1, lambda j: yielded[j].endswith(NL))
+
+
+_LAST = 'last_line_wo_ending_new_line'
+_LOCALS = {'non_last_part': 'local', 'non_last_part_lines': 'local', 'first_line': 'local', 'non_first_line': 'local'}
+
+_LINES_ITER_PROOF = False      # TODO (work in progress): the five loop invariants below are not yet within the solvers' reach
+if _LINES_ITER_PROOF:
+    M.contract(_P_CC + '._lines_iter', params=dict(self=CONCAT_CONTENTS), yields=ListOf(Str),
+               ensures={'lines == split_nl(txt)': lambda self, yielded: is_split_nl(yielded, txt_of(self))},
+               raises_only=())
+    M.loop(_P_CC + '._lines_iter', 0, invariant=_inv_parts, modifies={'yielded': 'len', _LAST: Opt(Str), **_LOCALS})
+    M.loop(_P_CC + '._lines_iter', 1, invariant=_inv_first_line, modifies={'yielded': 'len', _LAST: Opt(Str), **_LOCALS})
+    M.loop(_P_CC + '._lines_iter', 2, invariant=_inv_other_lines, modifies={'yielded': 'len', _LAST: Opt(Str), **_LOCALS})
+    M.loop(_P_CC + '._lines_iter', 3,
+           invariant=lambda self, yielded, last_line_wo_ending_new_line, _i:
+           _i == 0 and _inv_parts(self, yielded, last_line_wo_ending_new_line, len(self._parts) - 1),
+           modifies={'yielded': 'len', _LAST: Opt(Str), **_LOCALS})
+    M.loop(_P_CC + '._lines_iter', 4, invariant=_inv_last_other_lines, modifies={'yielded': 'len', **_LOCALS})
+
+
+if _LINES_ITER_PROOF:
+    M.contract(_P_CC + '.as_lines', params=dict(self=CONCAT_CONTENTS), inline=True,
+               ensures={'lines == split_nl(txt)': lambda self, yielded: is_split_nl(ctx_lines(yielded), txt_of(self))},
+               raises_only=())
+    M.contract(_P_CC + '.as_str', params=dict(self=CONCAT_CONTENTS), inline=True,
+               ensures={'as_str == txt': lambda self, result: result == txt_of(self)}, raises_only=())
